@@ -2,10 +2,12 @@
   An invariant of the WHOLE template walk for C07 (helper lemmas; the property theorems are in
   Props/C07Walk.lean): at every point of the walk
 
-    * every recorded link (a, o) has o < a and item o is a plain element,
+    * every recorded link (a, o) has o < p < a for the item p of some bit-map operator (22X000 / 232000), and
+      item o is a plain element,
     * every entry (i, e) of the three bit-map registers (`backRefs`, `bitmapped`, `bmIter`) names item i,
-      which is the plain element e,
-    * the back-reference boundary does not exceed the number of items recorded.
+      which is the plain element e and lies in front of the item of a bit-map operator,
+    * the back-reference boundary does not exceed the number of items recorded, and while a bit-map is being
+      defined it is the position of the operator that announced it.
 
   `Pres I f`: the step `f` preserves the state predicate `I`; closure under sequencing, iteration and
   case distinction, then the walk by the same mutual recursion as `good_walkList` (Lemmas/Frame.lean).
@@ -73,16 +75,29 @@ end closure
 
 /-! ### the invariant -/
 
-/-- every entry of a register list names an item that is that plain element -/
+/-- the ids of the operators that announce bit-mapped values -/
+def IsBitmapOp (id : Nat) : Prop := id = 222000 ∨ id = 223000 ∨ id = 224000 ∨ id = 225000 ∨ id = 232000
+
+/-- item `p` is the item of a bit-map operator -/
+def OpAt (ds : List DDesc) (p : Nat) : Prop := ∃ id, IsBitmapOp id ∧ ds.reverse[p]? = some (.oper id)
+
+/-- item `i` is the plain element `e` and lies in front of the item of some bit-map operator -/
+def Ref (ds : List DDesc) (i : Nat) (e : Elem) : Prop :=
+  ds.reverse[i]? = some (.plain e) ∧ ∃ p, i < p ∧ OpAt ds p
+
+/-- every entry of a register list names an item that is that plain element, in front of a bit-map operator -/
 def RefsOk (ds : List DDesc) (l : Option (List (Nat × Elem))) : Prop :=
-  ∀ xs, l = some xs → ∀ x ∈ xs, ds.reverse[x.1]? = some (.plain x.2)
+  ∀ xs, l = some xs → ∀ x ∈ xs, Ref ds x.1 x.2
 
 structure LinkInv (s : St) : Prop where
-  links : ∀ l ∈ s.links, l.2 < l.1 ∧ ∃ e, s.descs.reverse[l.2]? = some (.plain e)
+  /-- a link goes from a value to a plain element in front of a bit-map operator that precedes the value -/
+  links : ∀ l ∈ s.links, ∃ e, s.descs.reverse[l.2]? = some (.plain e) ∧ ∃ p, l.2 < p ∧ p < l.1 ∧ OpAt s.descs p
   backRefs : RefsOk s.descs s.regs.backRefs
   bitmapped : RefsOk s.descs s.regs.bitmapped
   bmIter : RefsOk s.descs s.regs.bmIter
   boundary : s.regs.backBoundary ≤ s.descs.length
+  /-- while a bit-map is being defined the boundary is the position of the operator that announced it -/
+  armed : s.regs.bitmapDef ≠ .na → OpAt s.descs s.regs.backBoundary
 
 theorem rev_get_lt {ds : List DDesc} {i : Nat} {x : DDesc} (h : ds.reverse[i]? = some x) : i < ds.length := by
   have := (List.getElem?_eq_some_iff.mp h).1
@@ -95,55 +110,70 @@ theorem rev_get_grow {ds : List DDesc} (ext : List DDesc) {i : Nat} {x : DDesc} 
   rw [List.reverse_append, List.getElem?_append_left (by simpa using hi)]
   exact h
 
+theorem OpAt.grow {ds : List DDesc} {p : Nat} (h : OpAt ds p) (ext : List DDesc) : OpAt (ext ++ ds) p :=
+  let ⟨id, a, b⟩ := h; ⟨id, a, rev_get_grow ext b⟩
+
+theorem Ref.grow {ds : List DDesc} {i : Nat} {e : Elem} (h : Ref ds i e) (ext : List DDesc) : Ref (ext ++ ds) i e :=
+  let ⟨a, p, b, c⟩ := h; ⟨rev_get_grow ext a, p, b, c.grow ext⟩
+
+theorem OpAt.lt {ds : List DDesc} {p : Nat} (h : OpAt ds p) : p < ds.length :=
+  let ⟨_, _, b⟩ := h; rev_get_lt b
+
 theorem RefsOk.grow {ds : List DDesc} {l : Option (List (Nat × Elem))} (h : RefsOk ds l) (ext : List DDesc) :
     RefsOk (ext ++ ds) l :=
-  fun xs e x hx => rev_get_grow ext (h xs e x hx)
+  fun xs e x hx => (h xs e x hx).grow ext
 
 theorem RefsOk.none (ds : List DDesc) : RefsOk ds none := fun _ e => by cases e
 
 theorem LinkInv.init (s : St) (hl : s.links = []) (h1 : s.regs.backRefs = none) (h2 : s.regs.bitmapped = none)
-    (h3 : s.regs.bmIter = none) (h4 : s.regs.backBoundary = 0) : LinkInv s := by
-  refine ⟨?_, ?_, ?_, ?_, ?_⟩
+    (h3 : s.regs.bmIter = none) (h4 : s.regs.backBoundary = 0) (h5 : s.regs.bitmapDef = .na) : LinkInv s := by
+  refine ⟨?_, ?_, ?_, ?_, ?_, ?_⟩
   · rw [hl]; intro l h; cases h
   · rw [h1]; exact RefsOk.none _
   · rw [h2]; exact RefsOk.none _
   · rw [h3]; exact RefsOk.none _
   · rw [h4]; exact Nat.zero_le _
+  · intro h; exact absurd h5 h
 
 /-- items added, links and bit-map registers untouched -/
 theorem LinkInv.transfer {s s' : St} (hi : LinkInv s) (ext : List DDesc) (hd : s'.descs = ext ++ s.descs)
     (hl : s'.links = s.links) (h1 : s'.regs.backRefs = s.regs.backRefs) (h2 : s'.regs.bitmapped = s.regs.bitmapped)
-    (h3 : s'.regs.bmIter = s.regs.bmIter) (h4 : s'.regs.backBoundary = s.regs.backBoundary) : LinkInv s' := by
-  refine ⟨?_, ?_, ?_, ?_, ?_⟩
+    (h3 : s'.regs.bmIter = s.regs.bmIter) (h4 : s'.regs.backBoundary = s.regs.backBoundary)
+    (h5 : s'.regs.bitmapDef ≠ .na → s.regs.bitmapDef ≠ .na) : LinkInv s' := by
+  refine ⟨?_, ?_, ?_, ?_, ?_, ?_⟩
   · intro l hm
     rw [hl] at hm
-    obtain ⟨a, e, b⟩ := hi.links l hm
-    exact ⟨a, e, by rw [hd]; exact rev_get_grow ext b⟩
+    obtain ⟨e, a, p, b1, b2, b3⟩ := hi.links l hm
+    exact ⟨e, by rw [hd]; exact rev_get_grow ext a, p, b1, b2, by rw [hd]; exact b3.grow ext⟩
   · rw [hd, h1]; exact hi.backRefs.grow ext
   · rw [hd, h2]; exact hi.bitmapped.grow ext
   · rw [hd, h3]; exact hi.bmIter.grow ext
   · rw [hd, h4, List.length_append]; exact Nat.le_trans hi.boundary (Nat.le_add_left _ _)
+  · intro h; rw [hd, h4]; exact (hi.armed (h5 h)).grow ext
 
 theorem LinkInv.same {s s' : St} {dd : DDesc} (hi : LinkInv s) (h : Same s s' dd) : LinkInv s' :=
-  hi.transfer [dd] h.1 h.2.1 (by rw [h.2.2]) (by rw [h.2.2]) (by rw [h.2.2]) (by rw [h.2.2])
+  hi.transfer [dd] h.1 h.2.1 (by rw [h.2.2]) (by rw [h.2.2]) (by rw [h.2.2]) (by rw [h.2.2]) (by rw [h.2.2]; exact fun x => x)
 
 theorem LinkInv.setRegs {s : St} (hi : LinkInv s) (f : Regs → Regs) (h1 : (f s.regs).backRefs = s.regs.backRefs)
     (h2 : (f s.regs).bitmapped = s.regs.bitmapped) (h3 : (f s.regs).bmIter = s.regs.bmIter)
-    (h4 : (f s.regs).backBoundary = s.regs.backBoundary) : LinkInv (s.setRegs f) :=
-  hi.transfer [] rfl rfl h1 h2 h3 h4
+    (h4 : (f s.regs).backBoundary = s.regs.backBoundary)
+    (h5 : (f s.regs).bitmapDef ≠ .na → s.regs.bitmapDef ≠ .na) : LinkInv (s.setRegs f) :=
+  hi.transfer [] rfl rfl h1 h2 h3 h4 h5
 
 /-- `next_bitmapped_descriptor()` followed by the recording of the link -/
 theorem LinkInv.serve {s s2 : St} (hi : LinkInv s) {o : Nat} {el : Elem} {rest : List (Nat × Elem)}
     (hb : s.regs.bmIter = some ((o, el) :: rest))
     (hd : s2.descs = s.descs) (hl : s2.links = (s.descs.length, o) :: s.links) (h3 : s2.regs.bmIter = some rest)
     (h1 : s2.regs.backRefs = s.regs.backRefs) (h2 : s2.regs.bitmapped = s.regs.bitmapped)
-    (h4 : s2.regs.backBoundary = s.regs.backBoundary) : LinkInv s2 := by
-  have ho := hi.bmIter _ hb (o, el) (by simp)
-  refine ⟨?_, ?_, ?_, ?_, ?_⟩
+    (h4 : s2.regs.backBoundary = s.regs.backBoundary)
+    (h5 : s2.regs.bitmapDef ≠ .na → s.regs.bitmapDef ≠ .na) : LinkInv s2 := by
+  have ho : Ref s.descs o el := hi.bmIter _ hb (o, el) (by simp)
+  refine ⟨?_, ?_, ?_, ?_, ?_, ?_⟩
   · intro l hm
     rw [hl] at hm
     rcases List.mem_cons.mp hm with rfl | hm
-    · exact ⟨rev_get_lt ho, el, by rw [hd]; exact ho⟩
+    · obtain ⟨a, p, b, c⟩ := ho
+      exact ⟨el, by rw [hd]; exact a, p, b, c.lt, by rw [hd]; exact c⟩
     · rw [hd]; exact hi.links l hm
   · rw [hd, h1]; exact hi.backRefs
   · rw [hd, h2]; exact hi.bitmapped
@@ -152,10 +182,32 @@ theorem LinkInv.serve {s s2 : St} (hi : LinkInv s) {o : Nat} {el : Elem} {rest :
     cases e
     exact hi.bmIter _ hb x (List.mem_cons_of_mem _ hx)
   · rw [hd, h4]; exact hi.boundary
+  · intro h; rw [hd, h4]; exact hi.armed (h5 h)
+
+/-- the item of a bit-map operator has just been recorded at the new boundary -/
+theorem LinkInv.mark {s s2 : St} (hi : LinkInv s) {id : Nat} (hid : IsBitmapOp id)
+    (hd : s2.descs = .oper id :: s.descs) (hl : s2.links = s.links) (h1 : s2.regs.backRefs = s.regs.backRefs)
+    (h2 : s2.regs.bitmapped = s.regs.bitmapped) (h3 : s2.regs.bmIter = s.regs.bmIter)
+    (h4 : s2.regs.backBoundary = s.descs.length) : LinkInv s2 := by
+  have hd' : s2.descs = [.oper id] ++ s.descs := hd
+  refine ⟨?_, ?_, ?_, ?_, ?_, ?_⟩
+  · intro l hm
+    rw [hl] at hm
+    obtain ⟨e, a, p, b1, b2, b3⟩ := hi.links l hm
+    exact ⟨e, by rw [hd']; exact rev_get_grow _ a, p, b1, b2, by rw [hd']; exact b3.grow _⟩
+  · rw [hd', h1]; exact hi.backRefs.grow _
+  · rw [hd', h2]; exact hi.bitmapped.grow _
+  · rw [hd', h3]; exact hi.bmIter.grow _
+  · rw [hd, h4]; simp
+  · intro _
+    refine ⟨id, hid, ?_⟩
+    rw [hd, h4, List.reverse_cons, List.getElem?_append_right (by simp)]
+    simp
 
 /-- what the invariant says about a report in processing order -/
 theorem LinkInv.report {s : St} (hi : LinkInv s) :
-    ∀ l ∈ s.links.reverse, l.2 < l.1 ∧ ∃ e, s.descs.reverse[l.2]? = some (.plain e) :=
+    ∀ l ∈ s.links.reverse, ∃ e, s.descs.reverse[l.2]? = some (.plain e) ∧
+      ∃ p, l.2 < p ∧ p < l.1 ∧ OpAt s.descs p :=
   fun l hl => hi.links l (List.mem_reverse.mp hl)
 
 /-! ### the steps -/
@@ -166,11 +218,12 @@ theorem pres_of_same {f : St → CM St} (h : ∀ s s', f s = .ok s' → ∃ dd, 
 /-- a step that only writes registers other than the four the invariant reads -/
 theorem pres_setRegs (f : St → Regs → Regs) (h1 : ∀ s, (f s s.regs).backRefs = s.regs.backRefs)
     (h2 : ∀ s, (f s s.regs).bitmapped = s.regs.bitmapped) (h3 : ∀ s, (f s s.regs).bmIter = s.regs.bmIter)
-    (h4 : ∀ s, (f s s.regs).backBoundary = s.regs.backBoundary) :
+    (h4 : ∀ s, (f s s.regs).backBoundary = s.regs.backBoundary)
+    (h5 : ∀ s, (f s s.regs).bitmapDef ≠ .na → s.regs.bitmapDef ≠ .na) :
     Pres LinkInv (fun s => .ok (s.setRegs (f s))) := by
   intro s s' e hi
   cases e
-  exact hi.setRegs (f s) (h1 s) (h2 s) (h3 s) (h4 s)
+  exact hi.setRegs (f s) (h1 s) (h2 s) (h3 s) (h4 s) (h5 s)
 
 theorem pres_stQa (e : Elem) : Pres LinkInv (stQa e) := by
   intro s s2 h hi
@@ -194,7 +247,7 @@ theorem pres_stQa (e : Elem) : Pres LinkInv (stQa e) := by
           obtain ⟨owner, el⟩ := x
           simp only [hb, pure, Except.pure, St.setRegs, addLink] at h
           injection h with h; subst h
-          exact hi.serve hb rfl rfl rfl rfl rfl rfl
+          exact hi.serve hb rfl rfl rfl rfl rfl rfl (fun x => x)
     | processing =>
       simp only [hq, reduceCtorEq, if_false] at h
       simp only [hq, if_true, St.setRegs, bind, Except.bind, nextBitmapped] at h
@@ -207,13 +260,13 @@ theorem pres_stQa (e : Elem) : Pres LinkInv (stQa e) := by
           obtain ⟨owner, el⟩ := x
           simp only [hb, pure, Except.pure, St.setRegs, addLink] at h
           injection h with h; subst h
-          exact hi.serve hb rfl rfl rfl rfl rfl rfl
+          exact hi.serve hb rfl rfl rfl rfl rfl rfl (fun x => x)
   · rw [if_neg hx] at h
     simp only [pure, Except.pure] at h
     injection h with h; subst h
     by_cases hq : s.regs.qa = .processing
     · simp only [hq, if_true]
-      exact hi.setRegs _ rfl rfl rfl rfl
+      exact hi.setRegs _ rfl rfl rfl rfl (fun x => x)
     · simp only [hq, if_false]
       exact hi
 
@@ -248,7 +301,7 @@ theorem pres_bitmappedDescriptor {P : Prims} (hP : Quiet P) (op : Nat) : Pres Li
     | cons x rest =>
       obtain ⟨owner, be⟩ := x
       simp only [bitmappedDescriptor, nextBitmapped, hb, bind, Except.bind] at h
-      exact pres_elementDescriptor hP _ _ _ _ h (hi.serve hb rfl rfl rfl rfl rfl rfl)
+      exact pres_elementDescriptor hP _ _ _ _ h (hi.serve hb rfl rfl rfl rfl rfl rfl (fun x => x))
 
 /-- whatever `collectBackRefs` returns beyond its accumulator names plain items of `ds` -/
 theorem collect_valid (n : Nat) : ∀ (ds : List DDesc) (i : Nat) (acc : List (Nat × Elem)), i = ds.length →
@@ -303,9 +356,10 @@ def brFor (s : St) (n : Nat) : List (Nat × Elem) :=
   | some (x :: xs) => x :: xs
   | _ => collectBackRefs n (s.descs.drop (s.descs.length - s.regs.backBoundary)) s.regs.backBoundary []
 
-theorem brFor_ok {s : St} (hi : LinkInv s) (n : Nat) : ∀ x ∈ brFor s n, s.descs.reverse[x.1]? = some (.plain x.2) := by
+theorem brFor_ok {s : St} (hi : LinkInv s) (ha : s.regs.bitmapDef ≠ .na) (n : Nat) :
+    ∀ x ∈ brFor s n, Ref s.descs x.1 x.2 := by
   have fresh : ∀ x ∈ collectBackRefs n (s.descs.drop (s.descs.length - s.regs.backBoundary)) s.regs.backBoundary [],
-      s.descs.reverse[x.1]? = some (.plain x.2) := by
+      Ref s.descs x.1 x.2 := by
     intro x hx
     have hb := hi.boundary
     have hlen : (s.descs.drop (s.descs.length - s.regs.backBoundary)).length = s.regs.backBoundary := by
@@ -320,7 +374,7 @@ theorem brFor_ok {s : St} (hi : LinkInv s) (n : Nat) : ∀ x ∈ brFor s n, s.de
         simp only [List.length_take, List.length_reverse] at this
         omega
       rw [List.getElem?_take_of_lt hlt] at h
-      exact h
+      exact ⟨h, _, hlt, hi.armed ha⟩
   intro x hx
   unfold brFor at hx
   cases hbr : s.regs.backRefs with
@@ -330,8 +384,8 @@ theorem brFor_ok {s : St} (hi : LinkInv s) (n : Nat) : ∀ x ∈ brFor s n, s.de
     | nil => rw [hbr] at hx; exact fresh x hx
     | cons y ys => rw [hbr] at hx; exact hi.backRefs _ hbr x hx
 
-theorem pres_buildBitmapped (bm : List Val) : Pres LinkInv (fun s => buildBitmapped s bm) := by
-  intro s s' h hi
+theorem build_inv (bm : List Val) (s s' : St) (h : buildBitmapped s bm = .ok s') (hi : LinkInv s)
+    (ha : s.regs.bitmapDef ≠ .na) : LinkInv s' := by
   have hdef : buildBitmapped s bm =
       (if (brFor s bm.length).length ≠ bm.length then .error .lib
        else .ok (s.setRegs fun r => { r with backRefs := some (brFor s bm.length),
@@ -341,10 +395,10 @@ theorem pres_buildBitmapped (bm : List Val) : Pres LinkInv (fun s => buildBitmap
   split at h
   · cases h
   · injection h with h; subst h
-    have ok := brFor_ok hi bm.length
-    have sel : ∀ x ∈ zeroSel bm (brFor s bm.length), s.descs.reverse[x.1]? = some (.plain x.2) :=
+    have ok := brFor_ok hi ha bm.length
+    have sel : ∀ x ∈ zeroSel bm (brFor s bm.length), Ref s.descs x.1 x.2 :=
       fun x hx => ok x ((zeroSel_sublist bm _).subset hx)
-    refine ⟨hi.links, ?_, ?_, ?_, hi.boundary⟩
+    refine ⟨hi.links, ?_, ?_, ?_, hi.boundary, hi.armed⟩
     · intro xs e x hx; cases e; exact ok x hx
     · intro xs e x hx; cases e; exact sel x hx
     · intro xs e x hx; cases e; exact sel x hx
@@ -356,16 +410,16 @@ theorem pres_bitmapDefinition (P : Prims) (id : Nat) : Pres LinkInv (bitmapDefin
   | na => simp only [hb] at h; cases h; exact hi
   | indicator =>
     simp only [hb] at h
-    split at h <;> (cases h; exact hi.setRegs _ rfl rfl rfl rfl)
+    split at h <;> (cases h; exact hi.setRegs _ rfl rfl rfl rfl (fun _ => by rw [hb]; exact fun x => nomatch x))
   | waiting =>
     simp only [hb] at h
     split at h
-    · cases h; exact hi.setRegs _ rfl rfl rfl rfl
+    · cases h; exact hi.setRegs _ rfl rfl rfl rfl (fun _ => by rw [hb]; exact fun x => nomatch x)
     · cases h; exact hi
   | counting =>
     simp only [hb] at h
     split at h
-    · cases h; exact hi.setRegs _ rfl rfl rfl rfl
+    · cases h; exact hi.setRegs _ rfl rfl rfl rfl (fun x => x)
     · simp only [bind, Except.bind, pure, Except.pure] at h
       cases hv : P.lastValues s.regs.n031031 s with
       | error err => simp [hv] at h
@@ -376,19 +430,21 @@ theorem pres_bitmapDefinition (P : Prims) (id : Nat) : Pres LinkInv (bitmapDefin
         | ok sb =>
           simp only [hbb] at h
           cases h
-          exact (pres_buildBitmapped bitmap s sb hbb hi).setRegs _ rfl rfl rfl rfl
+          exact (build_inv bitmap s sb hbb hi (by rw [hb]; exact fun x => nomatch x)).setRegs _ rfl rfl rfl rfl
+            (fun x => absurd rfl x)
 
 /-- `new_refval` primitives: one plain item, nothing the invariant reads is touched -/
 def QuietRef (P : Prims) : Prop :=
   ∀ e n s s', P.newRefval e n s = .ok s' →
     s'.descs = .plain e :: s.descs ∧ s'.links = s.links ∧ s'.regs.backRefs = s.regs.backRefs ∧
-    s'.regs.bitmapped = s.regs.bitmapped ∧ s'.regs.bmIter = s.regs.bmIter ∧ s'.regs.backBoundary = s.regs.backBoundary
+    s'.regs.bitmapped = s.regs.bitmapped ∧ s'.regs.bmIter = s.regs.bmIter ∧ s'.regs.backBoundary = s.regs.backBoundary ∧
+    s'.regs.bitmapDef = s.regs.bitmapDef
 
 theorem pres_operatorDescriptor {P : Prims} (hP : Quiet P) (id : Nat) : Pres LinkInv (operatorDescriptor P id) := by
   show Pres LinkInv (fun s => operatorDescriptor P id s)
   simp only [operatorDescriptor]
   repeat' first
-    | exact pres_setRegs _ (fun _ => rfl) (fun _ => rfl) (fun _ => rfl) (fun _ => rfl)
+    | exact pres_setRegs _ (fun _ => rfl) (fun _ => rfl) (fun _ => rfl) (fun _ => rfl) (fun _ x => x)
     | exact Pres.error _
     | exact pres_of_same (fun s s' h => ⟨_, hP.string _ _ _ _ h⟩)
     | exact pres_of_same (fun s s' h => ⟨_, hP.constant _ _ _ _ h⟩)
@@ -400,12 +456,14 @@ theorem pres_operatorDescriptor {P : Prims} (hP : Quiet P) (id : Nat) : Pres Lin
     split at h
     · cases h
     · next s2 hk =>
-      have i1 : LinkInv (s.setRegs fun r => { r with bitmapDef := .indicator, backBoundary := s.descs.length }) :=
-        ⟨hi.links, hi.backRefs, hi.bitmapped, hi.bmIter, Nat.le_refl _⟩
-      have i2 := i1.same (hP.constant _ _ _ _ hk)
+      rename_i hcode hy
+      have hid : IsBitmapOp id := by unfold IsBitmapOp; omega
+      have q := hP.constant _ _ _ _ hk
+      have i2 : LinkInv s2 := hi.mark hid q.1 q.2.1 (by rw [q.2.2]; rfl) (by rw [q.2.2]; rfl) (by rw [q.2.2]; rfl)
+        (by rw [q.2.2]; rfl)
       injection h with h; subst h
       split
-      · exact i2.setRegs _ rfl rfl rfl rfl
+      · exact i2.setRegs _ rfl rfl rfl rfl (fun x => x)
       · exact i2
   · -- 22X255 / 232255: a marker value
     exact Pres.congr (fun s => Bufr.bind_eq_kl (fun s => if s.regs.assocStack ≠ [] then associatedField P id s else .ok s)
@@ -414,7 +472,7 @@ theorem pres_operatorDescriptor {P : Prims} (hP : Quiet P) (id : Nat) : Pres Lin
   · -- 235000
     intro s s' h hi
     cases h
-    exact ⟨hi.links, RefsOk.none _, RefsOk.none _, hi.bmIter, hi.boundary⟩
+    exact ⟨hi.links, RefsOk.none _, RefsOk.none _, hi.bmIter, hi.boundary, hi.armed⟩
   · -- 237000
     intro s s' h hi
     cases hb : s.regs.bitmapped with
@@ -422,7 +480,8 @@ theorem pres_operatorDescriptor {P : Prims} (hP : Quiet P) (id : Nat) : Pres Lin
     | some l =>
       simp only [hb] at h
       have i1 : LinkInv (s.setRegs fun r => { r with bmIter := some l }) :=
-        ⟨hi.links, hi.backRefs, hi.bitmapped, by intro xs e x hx; cases e; exact hi.bitmapped _ hb x hx, hi.boundary⟩
+        ⟨hi.links, hi.backRefs, hi.bitmapped, by intro xs e x hx; cases e; exact hi.bitmapped _ hb x hx, hi.boundary,
+         hi.armed⟩
       exact i1.same (hP.constant _ _ _ _ h)
 
 /-! ### the walk -/
@@ -432,7 +491,7 @@ theorem pres_dnpStep : Pres LinkInv (fun s => .ok (dnpStep s)) := by
   cases h
   unfold dnpStep
   split
-  · exact hi.setRegs _ rfl rfl rfl rfl
+  · exact hi.setRegs _ rfl rfl rfl rfl (fun x => x)
   · exact hi
 
 theorem pres_walkRest {P : Prims} (hP : Quiet P) (hR : QuietRef P) (d : Desc) (hd : Pres LinkInv (dispatch P d)) :
@@ -445,8 +504,8 @@ theorem pres_walkRest {P : Prims} (hP : Quiet P) (hR : QuietRef P) (d : Desc) (h
     by_cases hk : e.kind = .string
     · simp [hk] at h
     · simp only [hk, if_false] at h
-      obtain ⟨a, b, c1, c2, c3, c4⟩ := hR _ _ _ _ h
-      exact hi.transfer [.plain e] a b c1 c2 c3 c4
+      obtain ⟨a, b, c1, c2, c3, c4, c5⟩ := hR _ _ _ _ h
+      exact hi.transfer [.plain e] a b c1 c2 c3 c4 (by rw [c5]; exact fun x => x)
   | none =>
     simp only [hsel] at h
     by_cases hn : s.regs.nbitsSkipped = 0
@@ -460,7 +519,7 @@ theorem pres_walkRest {P : Prims} (hP : Quiet P) (hR : QuietRef P) (d : Desc) (h
       | ok s1 =>
         simp only [hc] at h
         cases h
-        exact (hi.same (hP.codeflag _ _ _ _ hc)).setRegs _ rfl rfl rfl rfl
+        exact (hi.same (hP.codeflag _ _ _ _ hc)).setRegs _ rfl rfl rfl rfl (fun x => x)
 
 theorem pres_walk1_of {P : Prims} (hP : Quiet P) (hR : QuietRef P) (d : Desc) (hd : Pres LinkInv (dispatch P d)) :
     Pres LinkInv (walk1 P d) := by
@@ -508,13 +567,14 @@ theorem decPrimsU_quietRef : QuietRef decPrimsU := by
     simp only [hr] at h
     injection h with h; subst h
     obtain ⟨a, b, c, _⟩ := read_same _ _ _ _ hr
-    refine ⟨?_, ?_, ?_, ?_, ?_, ?_⟩
+    refine ⟨?_, ?_, ?_, ?_, ?_, ?_, ?_⟩
     · show s1.descs = _; rw [a]; rfl
     · show s1.links = _; rw [b]; rfl
     · show s1.regs.backRefs = _; rw [c]; rfl
     · show s1.regs.bitmapped = _; rw [c]; rfl
     · show s1.regs.bmIter = _; rw [c]; rfl
     · show s1.regs.backBoundary = _; rw [c]; rfl
+    · show s1.regs.bitmapDef = _; rw [c]; rfl
 
 theorem decPrimsC_quietRef : QuietRef decPrimsC := by
   intro e n s s' h
@@ -535,12 +595,13 @@ theorem decPrimsC_quietRef : QuietRef decPrimsC := by
       · injection h with h; subst h
         obtain ⟨a, b, c, _⟩ := read_same _ _ _ _ hr
         obtain ⟨a2, b2, c2, _⟩ := read_same _ _ _ _ hr2
-        refine ⟨?_, ?_, ?_, ?_, ?_, ?_⟩
+        refine ⟨?_, ?_, ?_, ?_, ?_, ?_, ?_⟩
         · show s2.descs = _; rw [a2, a]; rfl
         · show s2.links = _; rw [b2, b]; rfl
         · show s2.regs.backRefs = _; rw [c2, c]; rfl
         · show s2.regs.bitmapped = _; rw [c2, c]; rfl
         · show s2.regs.bmIter = _; rw [c2, c]; rfl
         · show s2.regs.backBoundary = _; rw [c2, c]; rfl
+        · show s2.regs.bitmapDef = _; rw [c2, c]; rfl
 
 end Bufr.C07
